@@ -111,6 +111,12 @@ def RegCall.render : RegCall → String
 
 def commaStrs (l : List String) : String := if l.isEmpty then "-" else ",".intercalate l
 
+def optNat (o : Option Nat) : String := match o with | some n => toString n | none => "-"
+def renderHeaders (l : List (Nat × Nat)) : String :=
+  if l.isEmpty then "-" else ",".intercalate (l.map fun p => s!"{p.1}/{p.2}")
+def probeGroups : List Bytes := probes.map (·.group)
+def renderFiles (l : List Bytes) : String := if l.isEmpty then "-" else ",".intercalate (l.map Proto.hex)
+
 def renderRunner (r : ParseResult) : List String :=
   if r.cfg.repeatCount > 3 then ["skipped"] else
   let t := runner probes r
@@ -119,6 +125,8 @@ def renderRunner (r : ParseResult) : List String :=
     s!"outputs {commaStrs (t.outputs.map OutEv.render)}",
     s!"console verbosity={match t.verbosity with | some v => toString v | none => "-1"} color={match t.color with | some b => b01 b | none => "-1"}",
     s!"printed {match t.printed with | .help => "help" | .usage => "usage" | .other => "other"}",
+    s!"seedline {optNat (if r.isOk then seedLine r.cfg (hasConsole r.cfg) else none)}",
+    s!"runheaders {renderHeaders (if r.isOk then runHeaders r.cfg (hasConsole r.cfg) else [])}",
     s!"calls {commaStrs (t.calls.map RegCall.render)}",
     s!"ran {if shuffled then "sorted" else "inorder"} {commaNats (if shuffled then sortNats t.ran else t.ran)}",
     s!"statics crashOnFail={b01 t.crashOnFail} rethrow={b01 t.rethrow}" ]
@@ -129,15 +137,24 @@ def renderRunAll (r : ParseResult) : List String :=
   let shuffled := g.calls.any fun c => match c with | .shuffle _ => true | _ => false
   [ s!"rc {g.rc}",
     s!"printed {match g.run.printed with | .help => "help" | .usage => "usage" | .other => "other"}",
+    s!"seedline {optNat (if r.isOk then seedLine r.cfg (printsToStdout r.cfg) else none)}",
+    s!"runheaders {renderHeaders (if r.isOk then runHeaders r.cfg (printsToStdout r.cfg) else [])}",
+    s!"files {renderFiles (if r.isOk then junitFiles r.cfg probes else [])}",
+    s!"teamcity {b01 (r.isOk && teamcityMessages r.cfg)}",
     s!"calls {commaStrs (g.calls.map RegCall.render)}",
     s!"ran {if shuffled then "sorted" else "inorder"} {commaNats (if shuffled then sortNats g.run.ran else g.run.ran)}",
     s!"registry plugins before={harnessPluginNames.length} after={g.pluginsAfter.length} memleak={b01 (g.pluginsAfter.contains nameMemLeak)} setpointer={b01 (g.pluginsAfter.contains nameSetPointer)}" ]
 
 /-- `plugins` stage: every `-p<x>` argument handed to the head of the chain -/
 def renderChain (chain : List (Bytes → Bool)) (args : List Bytes) : List String :=
-  (args.filter fun a => startsWith a [45, 112] && a.length > 2).map fun a =>
+  (args.filter fun a => startsWith a [45, 112] && a.length > 2).flatMap fun a =>
     let n := chainAsked chain a
-    s!"chain {Proto.hex a} asked={commaNats (recordingPositions.filter (· < n))} ret={b01 (chainAnswer chain a)}"
+    -- the real MemoryReporterPlugin sits at position 5: reached when nobody before it accepted
+    (if n ≥ 6 && memoryReporterParseArguments a then
+       let ty := memFormatterType a
+       [s!"memformatter {Proto.hex ty} {match memFormatterKind ty with | .normal => "normal" | .code => "code" | .none => "none"}"]
+     else []) ++
+    [s!"chain {Proto.hex a} asked={commaNats (recordingPositions.filter (· < n))} ret={b01 (chainAnswer chain a)}"]
 
 /-! ## model replay -/
 
@@ -412,6 +429,8 @@ def specParse (ops : List Proto.Op) : Except String Unit := do
         expectLine r.obs "printed" [if needHelp then "help" else "usage"]
         expectLine r.obs "ran" ["inorder", "-"]
         expectLine r.obs "rc" ["1"]
+        expectLine r.obs "files" ["-"]            -- no report file, no TeamCity message for a rejected vector
+        expectLine r.obs "teamcity" ["0"]
       else if findObs r.obs "printed" == some ["help"] || findObs r.obs "printed" == some ["usage"] then
         throw "RunAllTests: accepted vector, but help/usage was printed"
     else if rejected && !bigRepeat then throw "RunAllTests stage skipped for a rejected vector"
@@ -489,6 +508,21 @@ def specParse (ops : List Proto.Op) : Except String Unit := do
         if wantOut.contains "console" then
           expectLine r.obs "console" [s!"verbosity={if c.veryVerbose then 2 else if c.verbose then 1 else 0}", s!"color={b01 c.color}"]
         expectLine r.obs "statics" [s!"crashOnFail={b01 c.crashOnFail}", s!"rethrow={b01 c.rethrow}"]
+        -- "-s [<seed>]": the seed in use is announced on the console (the given one, else a non-zero one);
+        -- "-r<#>": every repetition is announced
+        let hasCons := wantOut.contains "console"
+        let docSeed (shows : Bool) (obs : List (List String)) (what : String) : Except String Unit :=
+          if c.shuffling && !listing && shows then
+            if seedKnown then expectLine obs "seedline" [toString c.shuffleSeed]
+            else match findObs obs "seedline" with
+              | some [n] => if n.toNat?.getD 0 == 0 then throw s!"{what}: shuffle seed announced as `{n}`" else pure ()
+              | _ => throw s!"{what}: shuffle seed not announced"
+          else expectLine obs "seedline" ["-"]
+        let docHeaders (shows : Bool) : List String :=
+          [if !listing && shows && c.repeatCount > 1
+           then ",".intercalate ((List.range c.repeatCount).map fun i => s!"{i + 1}/{c.repeatCount}") else "-"]
+        docSeed hasCons r.obs "runner"
+        expectLine r.obs "runheaders" (docHeaders hasCons)
         -- RunAllTests(ac, av) runs the same tests; 0 unless nothing was selected
         match runall with
         | some ra =>
@@ -496,6 +530,26 @@ def specParse (ops : List Proto.Op) : Except String Unit := do
           else expectLine ra.obs "ran" ["inorder", commaNats want]
           let anySelected := probes.any fun p => selects c p.group p.name
           expectLine ra.obs "rc" [if listing || anySelected then "0" else toString c.repeatCount]
+          -- the real outputs: "-ojunit" writes one xml file per group, "-k <packageName>" puts the package name into
+          -- each of them; "-oteamcity" prints TeamCity service messages; otherwise neither
+          let pk := if c.packageName.isEmpty then [] else c.packageName ++ ofString "_"
+          let pre := ofString "cpputest_" ++ pk
+          let got := match findObs ra.obs "files" with
+            | some [l] => if l == "-" then [] else (l.splitOn ",").filterMap Proto.unhex?
+            | _ => []
+          if (findObs ra.obs "files").isNone then throw "RunAllTests: files not reported"
+          if c.output == .junit && !listing then
+            for f in got do
+              if !(startsWith f pre && endsWith f (ofString ".xml")) then
+                throw s!"-k: report file `{toStringLossy f}` does not carry the package name `{toStringLossy c.packageName}`"
+            for p in probes do
+              if selects c p.group p.name && !got.contains (pre ++ p.group ++ ofString ".xml") then
+                throw s!"-ojunit: no report file for group {toStringLossy p.group} with package `{toStringLossy c.packageName}`"
+          else if !got.isEmpty then throw s!"report files written without -ojunit: {got.map toStringLossy}"
+          expectLine ra.obs "teamcity" [b01 (c.output == .teamcity && !listing)]
+          let showsReal := c.output != .junit || c.verbose || c.veryVerbose
+          docSeed showsReal ra.obs "RunAllTests"
+          expectLine ra.obs "runheaders" (docHeaders showsReal)
         | none => pure ()
     | none => throw "the runner did not finish"
 
